@@ -71,6 +71,9 @@ func parseCellTok(s string) Cell {
 	case 'Z':
 		return Cell{K: 'Z'}
 	}
+	if s == "O1" {
+		return Cell{K: 'V'}
+	}
 	return Cell{K: 'O'}
 }
 
@@ -86,6 +89,14 @@ func parseStmtTok(tok string) *Stmt {
 			}
 			s.Rows = append(s.Rows, row)
 		}
+		if len(f) == 7 {
+			for _, x := range splitTok(f[5], ",") {
+				kv := strings.SplitN(x, "=", 2)
+				s.OnDup = append(s.OnDup, kv[0])
+				s.OnDupV = append(s.OnDupV, parseCellTok(kv[1]))
+			}
+			s.SelSrc = f[6] == "S"
+		}
 		return s
 	case "U":
 		s := &Stmt{Kind: 'U', Table: f[1], Ret: splitTok(f[4], ",")}
@@ -97,6 +108,7 @@ func parseStmtTok(tok string) *Stmt {
 			s.Sets = append(s.Sets, kv[0])
 			s.SetV = append(s.SetV, parseCellTok(kv[1]))
 		}
+		s.MultiSet = len(f) == 6 && f[5] == "M"
 		return s
 	case "S":
 		s := &Stmt{Kind: 'S', Table: f[1], Ret: splitTok(f[3], ",")}
@@ -227,7 +239,13 @@ func init() {
 				return "closed"
 			}
 		} else {
-			if _, err := s.C.Extended(fakepg.Ext{Parse: true, Name: "s", SQL: sql}); err != nil {
+			var oids []uint32
+			if a[0] == "o" { // explicit parameter type OIDs (text) for every placeholder
+				for i := 1; strings.Contains(sql, fmt.Sprintf("$%d", i)); i++ {
+					oids = append(oids, 25)
+				}
+			}
+			if _, err := s.C.Extended(fakepg.Ext{Parse: true, Name: "s", SQL: sql, ParamOIDs: oids}); err != nil {
 				return "closed"
 			}
 			if len(w.DB.Parses) == 0 {
